@@ -417,6 +417,22 @@ def rule_laws(ctx):
                f'must be evaluated, not only one subclass', c.node, fm)
 
 
+def rule_overloadable(ctx):
+    ctx.rule('C15.sel', 'no operator method hands a selector that Python cannot overload (operator.not_, truth, is_, is_not) to a compose hook: '
+                        'applied element-wise by the list algebra it answers about the object, not about its value')
+    ao = ctx.repo.cls('sc3.base.absobject:AbstractObject')
+    n = 0
+    for name, f in sorted(ao.methods.items()):
+        for c in U.calls(f.node):
+            if U.is_self_attr(c.func) and c.func.attr.startswith(('_compose_', '_rcompose_')) and c.args:
+                n += 1
+                sel = norm(c.args[0])
+                ctx.ob('C15.sel', f'{f.fq}:{sel}:overloadable', sel not in ('operator.not_', 'operator.truth', 'operator.is_', 'operator.is_not'),
+                       f'{name} composes with {sel}: on a list of units it yields Python truth values ([False, False]) instead of lifted units',
+                       c, ao.module)
+    ctx.require(n >= 100, 'C15.sel', f'only {n} compose calls in AbstractObject found')
+
+
 def rule_wrap(ctx):
     ctx.rule('C15.wrap', 'scbuiltin.unop/binop/narop: left operand hook, then right operand reflected hook with swapped arguments, '
                          'then the kernel; the wrapper keeps the kernel __name__; every builtin used by an operator method has the '
@@ -470,9 +486,12 @@ def run(ctx):
     rule_order(ctx)
     rule_laws(ctx)
     rule_wrap(ctx)
+    rule_overloadable(ctx)
 
 
 MUTANTS = [
+    dict(rule='C15.sel', name='not_ composes with operator.not_ (fix reverted)', file='sc3/base/absobject.py',
+         old="        return self._compose_unop(bi.not_)  # not", new="        return self._compose_unop(operator.not_)  # not"),
     dict(rule='C15.laws', name='integer modulo fixed up by the sign of the dividend (seed C15-f)', file='sc3/base/builtins.py',
          old="    c = int(math.fmod(a, b))\n    if c < 0: c += b\n    return c", new="    c = abs(a) % abs(b)\n    if a < 0: c = b - c\n    return c"),
     dict(rule='C15.wrap', name='unary wrapper hands the raw kernel to the operand hook (fix reverted)', file='sc3/base/builtins.py',
